@@ -761,6 +761,22 @@ pub fn alphabet(ty: VariantType, codec: Codec, large: bool) -> Vec<LV> {
                     }
                 }
             }
+            // the strings inside a Font get the text alphabet's awkward members too
+            for (l, fam, cached) in [
+                ("family-space", " ", None),
+                ("family-ws", "\t\n ", None),
+                ("family-padded", "  padded  ", None),
+                ("family-nbsp", "\u{a0}", None),
+                ("cached-space", "rbxasset://fonts/families/Arial.json", Some(" ")),
+                ("cached-ws", "rbxasset://fonts/families/Arial.json", Some("\t\n")),
+                ("cached-cdata-end", "x]]>y", Some("a]]>b")),
+                ("family-nonascii", "rbxasset://f\u{f6}nts/\u{2603}.json", Some("\u{1F600}")),
+            ] {
+                out.push(lv(
+                    l,
+                    Font { family: fam.to_owned(), weight: FontWeight::Regular, style: FontStyle::Normal, cached_face_id: cached.map(|c: &str| c.to_owned()) },
+                ));
+            }
             out.push(lv(
                 "family-markup",
                 Font {
